@@ -72,7 +72,7 @@ fn replay_e1(prop: &str, d: &Value) -> i32 {
         }
     }
     let go = c.group_obs(&w.gid);
-    let rec = StateRec { key_hash: 0, obs_hash: 0, g: go.clone(), dedup: vec![], snap_queue: vec![], snap_stored: vec![], depth: 0, parent: None, key_json: None, auto_pending: false, send_ok: None, foreign_msgs: 0, welcome_states: vec![], welcome_dedup: vec![] };
+    let rec = StateRec { key_hash: 0, obs_hash: 0, g: go.clone(), dedup: vec![], snap_queue: vec![], snap_stored: vec![], depth: 0, parent: None, key_json: None, auto_pending: false, send_ok: None, foreign_msgs: 0, welcome_states: vec![], welcome_dedup: vec![], routes: vec![] };
     let cls = props_e1::classify(&w, &member, &rec);
     println!("after re-offering everything until nothing changes: {cls:?}");
     println!("  observed: {}", serde_json::to_string(&go.as_ref().map(|g| (&g.mls, &g.record_state))).unwrap_or_default());
